@@ -10,13 +10,25 @@ which answers with the code-shaped model (`Torf.Geometry.*`), the arithmetic spe
   impl ≠ spec                      → ctx.violation (KNOWN-FINDING only through a narrow matcher)
   hyp, impl = spec, impl ≠ model   → ctx.corr_break
   hyp, model ≠ spec                → ctx.machinery_error
+
+Round 4 added two dimensions:
+  * history — every random-access query (get_piece / get_piece_hash / verify_piece) is also asked on
+    stream objects that were used before (complete / partial / abandoned iter_pieces passes, other
+    indexed reads incl. the piece with the most files, close() and re-use, two passes); the expected
+    answer is the fresh-object answer (`Torf.C19.C19_independent`, `C19_history` for the model side);
+  * content-path spellings — worlds with up to three copies of the content (every byte different),
+    symbolic links, and content paths the OS resolves differently from their text (`link/..`, `.`,
+    doubled / trailing slashes, relative to a working directory reached through a link); the driver
+    (`c11.fs`) resolves the spelling over the inode table read off the disk and says which bytes /
+    which error / which returned path strings are right (`C11_content_path_verbatim`, `_dangling`).
 """
 import os
 import pathlib
+import random
 
 from harness import common
 from harness.gen import layouts
-from harness.impl import content
+from harness.impl import c11fs, content
 
 RULE = ('case = (layout, content-path setting, method, arguments); layouts: exhaustive small scopes '
         '(L<=4, <=3 files, sizes 0..2L+1, quick tier samples the largest scope) + boundary-directed random '
@@ -24,8 +36,14 @@ RULE = ('case = (layout, content-path setting, method, arguments); layouts: exha
         '-2..n+1, every file incl. two foreign File objects, every relative index -c-2..c+2 plus lists, '
         'byte ranges exhaustively for T<=7 else singletons, piece-aligned and random pairs; settings: no '
         'content path / class argument / Torrent.path / method argument / method argument "" / class '
-        'argument shadowing Torrent.path. non-trivial = layout with >= 2 files and a file boundary strictly '
-        'inside a piece; distinct = distinct (L, sizes, setting, method, arguments)')
+        'argument shadowing Torrent.path; history: random-access queries repeated on used stream objects '
+        '(iter_pieces full / partial+close / abandoned / twice, indexed reads incl. the widest piece, close() '
+        'and re-use, a hash check of every piece), followed by one more iter_pieces pass; content-path '
+        'spellings: worlds with 1-3 copies of the content (every byte different) + symbolic links, spellings '
+        'with link/.., ., doubled and trailing slashes, absolute or relative to a cwd reached through a link, '
+        'as str or pathlib.Path, per call / class argument / Torrent.path, multi- and single-file. '
+        'non-trivial = layout with >= 2 files and a file boundary strictly '
+        'inside a piece; distinct = distinct (L, sizes, setting, method, arguments[, history | world, spelling])')
 
 SETTINGS = [
     {'name': 'none', 'cls': None, 'tpath': None, 'arg': None},
@@ -105,6 +123,82 @@ def _err(e, torf):
     if isinstance(e, torf.ReadError):
         return {'err': 'internal:OSError'}
     return {'err': 'internal:' + type(e).__name__}
+
+
+_SAMPLED = __import__('collections').Counter()
+HISTORIES = ['iter-full', 'iter-partial-close', 'iter-abandon', 'iter-twice', 'pieces', 'widest-piece',
+             'close-reuse', 'iter-then-close', 'verify-all']
+RANDOM_ACCESS = ('get_piece', 'piece_hash', 'verify')
+
+
+def _widest_piece(L, sizes):
+    """index of the piece that holds bytes of the most files"""
+    best, besti, pos = -1, 0, _pos(sizes)
+    for i in range(_npieces(L, sizes)):
+        k = sum(1 for p, s in zip(pos, sizes) if s and p < (i + 1) * L and p + s > i * L)
+        if k > best:
+            best, besti = k, i
+    return besti
+
+
+def _apply_history(tfs, h, L, sizes, kw2):
+    """use the stream object the way earlier callers may have; whatever these calls answer (or raise) is
+    judged elsewhere — here they only leave their traces in the object.  Returns objects to keep alive."""
+    npc = _npieces(L, sizes)
+    rng = random.Random(h['hseed'])
+    keep = []
+
+    def quiet(f, *a, **k):
+        try:
+            return f(*a, **k)
+        except Exception:  # noqa
+            return None
+    name = h['h']
+    if name in ('iter-full', 'iter-twice', 'iter-then-close'):
+        for _ in range(2 if name == 'iter-twice' else 1):
+            quiet(lambda: [None for _x in tfs.iter_pieces(**kw2)])
+        if name == 'iter-then-close':
+            tfs.close()
+    elif name in ('iter-partial-close', 'iter-abandon'):
+        it = tfs.iter_pieces(**kw2)
+        for _ in range(rng.randint(1, max(1, npc))):
+            if quiet(lambda: next(it, None)) is None:
+                break
+        if name == 'iter-partial-close':
+            it.close()
+        else:
+            keep.append(it)            # suspended at a yield for the rest of the object's life
+    elif name == 'pieces':
+        for _ in range(rng.randint(1, 6)):
+            quiet(tfs.get_piece, rng.randrange(npc), **kw2)
+    elif name == 'widest-piece':
+        quiet(tfs.get_piece, _widest_piece(L, sizes), **kw2)
+        quiet(tfs.get_piece, rng.randrange(npc), **kw2)
+    elif name == 'close-reuse':
+        quiet(tfs.get_piece, rng.randrange(npc), **kw2)
+        tfs.close()
+        if rng.random() < 0.5:
+            quiet(tfs.get_piece, rng.randrange(npc), **kw2)
+    elif name == 'verify-all':
+        for i in range(npc):
+            quiet(tfs.verify_piece, i, **kw2)
+    else:
+        raise RuntimeError(name)
+    return keep
+
+
+def _random_access(tfs, torf, q, kw2):
+    m = q['m']
+    try:
+        if m == 'get_piece':
+            return {'ok': tfs.get_piece(q['i'], **kw2)}
+        if m == 'piece_hash':
+            return {'ok': tfs.get_piece_hash(q['i'], **kw2)}
+        return {'ok': tfs.verify_piece(q['i'], **kw2)}
+    except BaseException as e:  # noqa
+        if isinstance(e, (KeyboardInterrupt, RuntimeError)):
+            raise
+        return _err(e, torf)
 
 
 def _run_layout(torf, _stream, wd, c):
@@ -205,7 +299,22 @@ def _run_layout(torf, _stream, wd, c):
                 seq = [p for (p, _fp, _ex) in tfs.iter_pieces(**kw2)]
             except BaseException as e:  # noqa
                 seq = 'exc:' + type(e).__name__
-    return out, seq, contents
+    # the same random-access questions to stream objects with a past
+    hist = []
+    if has_path and sum(sizes) > 0:
+        kw2 = {'content_path': top} if st['arg'] == 'top' else {}
+        for h in c.get('hist', []):
+            with _stream.TorrentFileStream(t, content_path=(top if st['cls'] == 'top' else None)) as tfs:
+                keep = _apply_history(tfs, h, L, sizes, kw2)
+                obs = [(k, _random_access(tfs, torf, q, kw2)) for k, q in enumerate(c['queries'])
+                       if q['m'] in RANDOM_ACCESS]
+                try:
+                    seq2 = [p for (p, _fp, _ex) in tfs.iter_pieces(**kw2)]
+                except BaseException as e:  # noqa
+                    seq2 = 'exc:' + type(e).__name__
+                del keep
+            hist.append({'h': h, 'obs': obs, 'seq': seq2})
+    return out, seq, contents, hist
 
 
 def _run_chunk(cases):
@@ -294,11 +403,51 @@ def _driver_requests(cases):
 
 
 def _conv_piece(v, contents, hashed=False):
-    """driver reply for a piece (runs) → bytes (or its sha1)"""
-    if 'ok' in v:
+    """driver reply for a piece (runs) → bytes (or its sha1); `None` (no such file) stays"""
+    if 'ok' in v and v['ok'] is not None:
         b = content.pieces_from_runs([v['ok']], contents)[0]
         return {'ok': common.sha1(b) if hashed else b}
     return v
+
+
+def _judge(ctx, base, q, o, d, contents, nt, extra=None):
+    """one query: implementation `o` against the driver's {model, spec, hyp}.  `extra` = the further
+    coordinates of the case (history of the stream object / world and spelling): {'key', 'kind', 'text', 'case'}"""
+    L, sizes = base['L'], base['sizes']
+    m = q['m']
+    model, spec, hyp = d['model'], d['spec'], d['hyp']
+    if m in ('get_piece', 'piece_hash'):
+        model = _conv_piece(model, contents, hashed=(m == 'piece_hash'))
+        spec = _conv_piece(spec, contents, hashed=(m == 'piece_hash'))
+    ex = extra or {'key': (), 'kind': '', 'text': '', 'case': {}}
+    ctx.case(key=(L, tuple(sizes), base['setting'], bool(base.get('single')), m,
+                  tuple(sorted((k, str(v)) for k, v in q.items() if k != 'm'))) + tuple(ex['key']),
+             nontrivial=nt, kind=m + ex['kind'] + ('' if hyp else '/outside-hyp'))
+    case = dict(base, query=q, spec=spec, model_obs=model, hyp=hyp, **ex['case'])
+    if hyp and model != spec:
+        ctx.machinery_error(f'{m}: model != spec inside the hypothesis of a proved theorem', case)
+        return
+    if o != spec:
+        ctx.violation(f'{m}{_fmt(q)} on L={L} sizes={sizes} ({base["setting"]}){ex["text"]} answers {_short(o)}, '
+                      f'arithmetic definition: {_short(spec)}', case, spec, o, finding_matchers=MATCHERS)
+        return
+    if hyp and o != model:
+        ctx.corr_break('c11.' + m, case, model, o)
+    elif not hyp and o != model:
+        ctx.dist['outside-hyp:impl-meets-spec-model-does-not'] += 1
+
+
+def _judge_iter(ctx, base, seq, want, nt, extra=None):
+    L, sizes = base['L'], base['sizes']
+    ex = extra or {'key': (), 'kind': '', 'text': '', 'case': {}}
+    ctx.case(key=(L, tuple(sizes), base['setting'], 'iter') + tuple(ex['key']), nontrivial=nt,
+             kind='iter_pieces' + ex['kind'])
+    if seq != want:
+        ctx.violation(f'iter_pieces() on L={L} sizes={sizes} ({base["setting"]}){ex["text"]} differs from the '
+                      f'consecutive slices of the stream',
+                      dict(base, query={'m': 'iter'}, **ex['case']), [w.hex() for w in want[:6]],
+                      seq if isinstance(seq, str) else [(x.hex() if x is not None else None) for x in seq[:6]],
+                      finding_matchers=MATCHERS)
 
 
 def evaluate(ctx, drv, cases):
@@ -310,7 +459,7 @@ def evaluate(ctx, drv, cases):
         c['returned'] = [x['model'] for x in r['res'][len(r['res']) - n:]]
     results = common.pmap(_run_chunk, common.split(cases, common.NPROC * 4))
     flat = [x for chunk in results for x in chunk]
-    for c, r, (obs, seq, contents) in zip(cases, replies, flat):
+    for c, r, (obs, seq, contents, hist) in zip(cases, replies, flat):
         L, sizes = c['L'], c['sizes']
         nt = layouts.nontrivial_key(L, sizes) is not None
         res = r['res']
@@ -320,36 +469,22 @@ def evaluate(ctx, drv, cases):
         if len(ctx.samples) < 3:
             ctx.sample({'layout': base, 'queries': c['queries'][:4] + c['queries'][-3:], 'n_queries': len(c['queries'])})
         for q, o, d in zip(c['queries'], obs, res):
-            m = q['m']
-            model, spec, hyp = d['model'], d['spec'], d['hyp']
-            if m in ('get_piece', 'piece_hash'):
-                model = _conv_piece(model, contents, hashed=(m == 'piece_hash'))
-                spec = _conv_piece(spec, contents, hashed=(m == 'piece_hash'))
-            ctx.case(key=(L, tuple(sizes), c['setting'], bool(c.get('single')), m,
-                          tuple(sorted((k, str(v)) for k, v in q.items() if k != 'm'))),
-                     nontrivial=nt, kind=m + ('' if hyp else '/outside-hyp'))
-            case = dict(base, query=q, spec=spec, model_obs=model, hyp=hyp)
-            if hyp and model != spec:
-                ctx.machinery_error(f'{m}: model != spec inside the hypothesis of a proved theorem', case)
-                continue
-            if o != spec:
-                fid = ctx.violation(f'{m}{_fmt(q)} on L={L} sizes={sizes} ({c["setting"]}) answers {_short(o)}, '
-                                    f'arithmetic definition: {_short(spec)}', case, spec, o,
-                                    finding_matchers=MATCHERS)
-                continue
-            if hyp and o != model:
-                ctx.corr_break('c11.' + m, case, model, o)
-            elif not hyp and o != model:
-                ctx.dist['outside-hyp:impl-meets-spec-model-does-not'] += 1
+            _judge(ctx, base, q, o, d, contents, nt)
         # sequential iteration = indexed reading = chunks of the stream (model: C01's iterPieces)
+        want = content.pieces_from_runs(r['iter'], contents)
         if seq is not None:
-            want = content.pieces_from_runs(r['iter'], contents)
-            ctx.case(key=(L, tuple(sizes), c['setting'], 'iter'), nontrivial=nt, kind='iter_pieces')
-            if seq != want:
-                ctx.violation(f'iter_pieces() on L={L} sizes={sizes} differs from the consecutive slices of the stream',
-                              dict(base, query={'m': 'iter'}), [w.hex() for w in want[:6]],
-                              seq if isinstance(seq, str) else [(s.hex() if s is not None else None) for s in seq[:6]],
-                              finding_matchers=MATCHERS)
+            _judge_iter(ctx, base, seq, want, nt)
+        # stream objects with a past: the fresh-object answers again (C19_independent / C19_history)
+        for hrec in hist:
+            h = hrec['h']
+            ex = {'key': ('after', h['h'], h['hseed']), 'kind': '/after:' + h['h'],
+                  'text': f' on a stream object used before ({h["h"]})', 'case': {'history': h}}
+            if _SAMPLED['history'] < 2:
+                _SAMPLED['history'] += 1
+                ctx.sample({'layout': base, 'history': h, 'n_queries': len(hrec['obs'])}, limit=12)
+            for k, o in hrec['obs']:
+                _judge(ctx, base, c['queries'][k], o, res[k], contents, nt, extra=ex)
+            _judge_iter(ctx, base, hrec['seq'], want, nt, extra=ex)
 
 
 def _fmt(q):
@@ -361,10 +496,277 @@ def _short(x):
     return s if len(s) < 160 else s[:157] + '...'
 
 
+# ----------------------------------------------------------------------------- content-path spellings
+
+FS_SETTINGS = ['arg', 'cls', 'tpath']
+
+
+def _err_fs(e, torf):
+    """error kinds of the file-system cases: ReadError carries its errno name"""
+    import errno as _errno
+    if isinstance(e, ValueError):
+        return {'err': 'value'}
+    if isinstance(e, torf.ReadError):
+        return {'err': 'internal:ReadError:' + _errno.errorcode.get(e.errno, str(e.errno))}
+    return {'err': 'internal:' + type(e).__name__}
+
+
+def _show(torf, o):
+    """a returned path object as data: kind, text, size"""
+    return ['File' if isinstance(o, torf.File) else type(o).__name__, os.fspath(o) if hasattr(o, '__fspath__') else str(o),
+            getattr(o, 'size', None)]
+
+
+def fs_queries(L, sizes):
+    T, npc, pos = sum(sizes), _npieces(L, sizes), _pos(sizes)
+    qs = []
+    for i in range(-1, npc + 1):
+        qs += [{'m': 'get_piece', 'i': i}, {'m': 'piece_hash', 'i': i}, {'m': 'verify', 'i': i},
+               {'m': 'files_at_piece', 'i': i}]
+    for p in sorted({0, T - 1} | set(pos) | {x - 1 for x in pos if x > 0}):
+        qs.append({'m': 'file_at_position', 'p': p})
+    qs.append({'m': 'byte_range', 'a': 0, 'b': T - 1})
+    return qs
+
+
+def _run_world(torf, _stream, wd, c):
+    """build the world of one case, read it off the disk, and ask every run's queries"""
+    import shutil
+    L, sizes, single = c['L'], c['sizes'], c['single']
+    n = len(sizes)
+    files = [{'path': p, 'size': s} for p, s in zip(c['paths'], sizes)]
+    R = os.path.realpath(os.path.join(wd, 'fsworld'))
+    shutil.rmtree(R, ignore_errors=True)
+    os.makedirs(R)
+    base_contents = [content.file_bytes(c['cseed'], i, s) for i, s in enumerate(sizes)]
+    cid_of = c11fs.build(R, files, single, base_contents, c['places'])
+    nodes = c11fs.scan(R, cid_of)
+    t = content.make_torrent(torf, wd, 'T', files, L, single=single, with_path=False)
+    stream = b''.join(base_contents)
+    npc = _npieces(L, sizes)
+    hashes = [common.sha1(stream[i * L:(i + 1) * L]) for i in range(npc)][:c['nstored']]
+    if c.get('bad') is not None and c['bad'] < len(hashes):
+        hashes[c['bad']] = common.sha1(b'wrong' + hashes[c['bad']])
+    if hashes:
+        t.metainfo['info']['pieces'] = b''.join(hashes)
+    runs = []
+    home = os.getcwd()
+    for run in c['runs']:
+        text = run['cp'].replace('{R}', R)
+        cwd = run['cwd'].replace('{R}', R)
+        obj = pathlib.Path(text) if (run['as_path'] or run['setting'] == 'tpath') else text
+        eff = os.fspath(obj)                    # the content path the stream is given, as text
+        t._path = obj if run['setting'] == 'tpath' else None
+        kw = {'content_path': obj} if run['setting'] == 'arg' else {}
+        obs, seq = [], None
+        try:
+            os.chdir(cwd)
+            with _stream.TorrentFileStream(t, content_path=(obj if run['setting'] == 'cls' else None)) as tfs:
+                for q in run['queries']:
+                    m = q['m']
+                    try:
+                        if m == 'get_piece':
+                            r = {'ok': tfs.get_piece(q['i'], **kw)}
+                        elif m == 'piece_hash':
+                            r = {'ok': tfs.get_piece_hash(q['i'], **kw)}
+                        elif m == 'verify':
+                            r = {'ok': tfs.verify_piece(q['i'], **kw)}
+                        elif m == 'files_at_piece':
+                            r = {'ok': [_show(torf, o) for o in tfs.get_files_at_piece_index(q['i'], **kw)]}
+                        elif m == 'file_at_position':
+                            r = {'ok': _show(torf, tfs.get_file_at_position(q['p'], **kw))}
+                        elif m == 'byte_range':
+                            r = {'ok': [_show(torf, o) for o in tfs.get_files_at_byte_range(q['a'], q['b'], **kw)]}
+                        else:
+                            raise RuntimeError(m)
+                    except BaseException as e:  # noqa
+                        if isinstance(e, (KeyboardInterrupt, RuntimeError)):
+                            raise
+                        r = _err_fs(e, torf)
+                    obs.append(r)
+            with _stream.TorrentFileStream(t, content_path=(obj if run['setting'] == 'cls' else None)) as tfs:
+                try:
+                    seq = [(p, _show(torf, fp)) for (p, fp, _ex) in tfs.iter_pieces(**kw)]
+                except BaseException as e:  # noqa
+                    seq = 'exc:' + type(e).__name__
+        finally:
+            os.chdir(home)
+        runs.append({'eff': eff, 'cwd': cwd, 'obs': obs, 'seq': seq})
+    contents = [c11fs.variant(base_contents[j], v) for v in range(3) for j in range(n)]
+    shutil.rmtree(R, ignore_errors=True)
+    return {'R': R, 'nodes': nodes, 'runs': runs, 'contents': contents}
+
+
+def _run_fs_chunk(cases):
+    torf = common.import_torf()
+    from torf import _stream
+    wd = common.worker_dir()
+    return [_run_world(torf, _stream, wd, c) for c in cases]
+
+
+def _ident_fs(o, paths, sizes, single, eff):
+    """a returned path object → index of the file it must stand for (text compared character for character)"""
+    kind, text, size = o
+    if single:
+        return 0 if (kind != 'File' and text == eff) else 'unrecognised:' + repr(o)
+    for j, p in enumerate(paths):
+        if kind == 'File' and text == p and size == sizes[j]:
+            return j
+    return 'unrecognised:' + repr(o)
+
+
+def evaluate_fs(ctx, drv, cases):
+    if not cases:
+        return
+    results = common.pmap(_run_fs_chunk, common.split(cases, common.NPROC * 4))
+    flat = [x for chunk in results for x in chunk]
+    reqs = []
+    for c, w in zip(cases, flat):
+        n = len(c['sizes'])
+        names = [([] if c['single'] else list(p)) for p in c['paths']]
+        req = {'op': 'c11.fs', 'L': c['L'], 'sizes': c['sizes'], 'names': names, 'single': c['single'],
+               'fs': w['nodes'], 'cidSizes': c['sizes'] * 3, 'storedCids': list(range(n)), 'nstored': c['nstored'],
+               'runs': [{'cwd': rw['cwd'], 'cp': rw['eff'],
+                         'queries': [dict(q, hasPath=True) if q['m'] in RANDOM_ACCESS else q for q in run['queries']]}
+                        for run, rw in zip(c['runs'], w['runs'])]}
+        if c.get('bad') is not None:
+            req['bad'] = c['bad']
+        reqs.append(req)
+    replies = drv.run(reqs)
+    for c, w, rep in zip(cases, flat, replies):
+        L, sizes, single = c['L'], c['sizes'], c['single']
+        nt = layouts.nontrivial_key(L, sizes) is not None
+        R = w['R']
+        for run, rw, d in zip(c['runs'], w['runs'], rep['runs']):
+            fsrec = {'places': c['places'], 'cwd': run['cwd'], 'cp': run['cp'], 'as_path': run['as_path'],
+                     'setting': run['setting']}
+            base = {'L': L, 'sizes': sizes, 'paths': c['paths'], 'setting': run['setting'], 'cseed': c['cseed'],
+                    'single': single, 'nstored': c['nstored'], 'bad': c.get('bad')}
+            where = ('every file found' if d['allSeen'] else 'no file found' if d['noneSeen'] else 'some files found')
+            ex = {'key': ('fs', tuple(c['places']), run['cwd'], run['cp'], run['as_path']),
+                  'kind': '/spelling:' + ('all' if d['allSeen'] else 'none' if d['noneSeen'] else 'some')
+                          + ('' if d['lexSame'] else ',os!=text'),
+                  'text': f' with content path {run["cp"]!r} (cwd {run["cwd"]}, copies at {c["places"]}; the OS: {where})',
+                  'case': {'fs': fsrec}}
+            if _SAMPLED['fs'] < 4 and not d['lexSame']:
+                _SAMPLED['fs'] += 1
+                ctx.sample({'layout': base, 'fs': fsrec, 'os': where, 'opened': [p.replace(R, '{R}') for p in d['paths']]},
+                           limit=12)
+            if d['hyp'] and not d['lookAgree']:
+                ctx.machinery_error('the pathlib form of a spelling does not lead where the spelling leads '
+                                    '(C11_pathlib_form_harmless)', dict(base, fs=fsrec))
+                continue
+            for q, o, a in zip(run['queries'], rw['obs'], d['res']):
+                if q['m'] in ('files_at_piece', 'file_at_position', 'byte_range') and 'ok' in o:
+                    v = o['ok']
+                    if q['m'] == 'file_at_position':
+                        o = {'ok': _ident_fs(v, d['paths'], sizes, single, rw['eff'])}
+                    else:
+                        o = {'ok': [_ident_fs(x, d['paths'], sizes, single, rw['eff']) for x in v]}
+                _judge(ctx, base, q, o, a, w['contents'], nt, extra=ex)
+            # sequential reading of what the OS finds there
+            if d['allSeen'] and rw['seq'] is not None:
+                want = content.pieces_from_runs(d['iter'], w['contents'])
+                seq = rw['seq'] if isinstance(rw['seq'], str) else [p for p, _fp in rw['seq']]
+                _judge_iter(ctx, base, seq, want, nt, extra=ex)
+                if not isinstance(rw['seq'], str):
+                    bad = [fp for _p, fp in rw['seq']
+                           if isinstance(_ident_fs(fp, d['paths'], sizes, single, rw['eff']), str)]
+                    if bad:
+                        ctx.violation(f'iter_pieces() on L={L} sizes={sizes}{ex["text"]} reports a file path that is not '
+                                      f'content path / listed name: {bad[0]}', dict(base, query={'m': 'iter'}, fs=fsrec),
+                                      [p.replace(R, '{R}') for p in d['paths']], bad[0], finding_matchers=MATCHERS)
+
+
+def _fs_layout(rng, ctx, single):
+    if single:
+        L = rng.choice([1, 2, 3, 8, 16])
+        return L, [max(1, layouts.boundary_sizes(rng, L))]
+    if rng.random() < 0.12:
+        L = 16384
+        sizes = [rng.choice([1, L - 1, L, L + 1, rng.randint(1, 2 * L)]) for _ in range(rng.randint(2, 4))]
+        return L, sizes
+    L = rng.choice([1, 2, 3, 4, 5, 8, 16])
+    _shape, sizes = layouts.random_sizes(rng, L, nmax=14)
+    sizes = [s for s in sizes if s > 0][:14] or [L + 1]
+    return L, sizes
+
+
+def _fs_paths(n, rng):
+    out = []
+    for i in range(n):
+        depth = rng.choice([0, 0, 1, 2])
+        out.append([f'd{rng.randint(0, 2)}' for _ in range(depth)] + [f'f{i:03d}'])
+    return out
+
+
+def gen_fs_cases(ctx, scale=1.0):
+    rng = ctx.rng
+    cases = []
+    place_sets = [['store', 'work'], ['store', 'work', 'root'], ['store'], ['work'], ['store', 'root'], ['work', 'root']]
+    for k in range(int(ctx.n(160, 2500) * scale)):
+        single = rng.random() < 0.15
+        L, sizes = _fs_layout(rng, ctx, single)
+        npc = _npieces(L, sizes)
+        places = place_sets[k % len(place_sets)] if k % 3 else ['store', 'work', 'root']
+        bad = rng.randrange(npc + 2)
+        c = {'L': L, 'sizes': sizes, 'paths': _fs_paths(len(sizes), rng), 'single': single,
+             'cseed': rng.randrange(1 << 30), 'places': places, 'nstored': npc if rng.random() < 0.85 else max(0, npc - 1),
+             'bad': bad if bad < npc else None, 'runs': []}
+        # R is only known to the worker: spellings are made against a throw-away skeleton of the same shape
+        c['runs'] = _fs_runs(rng, c, ctx.n(5, 8))
+        cases.append(c)
+    return cases
+
+
+_SKELETON = {}
+
+
+def _skeleton(places, single):
+    """a world of the given shape (empty files) for the guided random walks of the spelling generator"""
+    key = (tuple(places), single)
+    if key not in _SKELETON:
+        R = os.path.realpath(os.path.join(common.worker_dir(), 'skel-' + '-'.join(places) + ('-s' if single else '')))
+        if not os.path.isdir(R):
+            os.makedirs(R)
+            c11fs.build(R, [{'path': ['f000'], 'size': 0}], single, [b''], places)
+        _SKELETON[key] = R
+    return _SKELETON[key]
+
+
+def _fs_runs(rng, c, k):
+    R = _skeleton(c['places'], c['single'])
+    runs = []
+    qs = fs_queries(c['L'], c['sizes'])
+    for r in range(k):
+        cwd, cp = c11fs.spelling(rng, R, plain=(r == 0))
+        runs.append({'cwd': cwd, 'cp': cp, 'setting': rng.choice(FS_SETTINGS), 'as_path': rng.random() < 0.25,
+                     'queries': qs})
+    return runs
+
+
+def _fs_witness_case(c0):
+    f = c0['fs']
+    c = {'L': c0['L'], 'sizes': c0['sizes'], 'paths': c0['paths'], 'single': c0.get('single', False),
+         'cseed': c0['cseed'], 'places': f['places'], 'nstored': c0['nstored'], 'bad': c0.get('bad')}
+    qs = fs_queries(c['L'], c['sizes']) if c0.get('query', {}).get('m') in (None, 'iter') else [c0['query']]
+    c['runs'] = [{'cwd': f['cwd'], 'cp': f['cp'], 'setting': f['setting'], 'as_path': f['as_path'], 'queries': qs}]
+    return c
+
+
+def replay_fs(ctx, drv, c0):
+    evaluate_fs(ctx, drv, [_fs_witness_case(c0)])
+    return {'fails': bool(ctx.violations) or bool(ctx.known), 'violations': ctx.violations, 'known': list(ctx.known)}
+
+
 # ----------------------------------------------------------------------------- generators
 
-def _mk_case(L, sizes, setting, rng, single=False, full=True, nested=False, hashes='all'):
+def _mk_case(L, sizes, setting, rng, single=False, full=True, nested=False, hashes='all', nhist=0):
     npc = _npieces(L, sizes)
+    st = SETTING[setting]
+    hist = []
+    if nhist and sum(sizes) > 0 and any(st[k] == 'top' for k in ('cls', 'tpath', 'arg')):
+        hist = [{'h': h, 'hseed': rng.randrange(1 << 30)} for h in rng.sample(HISTORIES, min(nhist, len(HISTORIES)))]
     qseed = rng.randrange(1 << 30)
     bad = rng.randrange(npc + 2) if npc else None
     if bad is not None and bad >= npc:
@@ -373,7 +775,7 @@ def _mk_case(L, sizes, setting, rng, single=False, full=True, nested=False, hash
     return {'L': L, 'sizes': list(sizes), 'paths': layouts.paths_for(len(sizes), rng, nested),
             'setting': setting, 'cseed': rng.randrange(1 << 30), 'single': single,
             'queries': build_queries(L, list(sizes), qseed, full=full), 'qseed': qseed,
-            'nstored': nstored, 'bad': bad}
+            'nstored': nstored, 'bad': bad, 'hist': hist}
 
 
 def gen_cases(ctx, scale=1.0):
@@ -393,7 +795,7 @@ def gen_cases(ctx, scale=1.0):
     ctx.notes['exhaustive_scope'] = scope
     for k, (L, sizes) in enumerate(ex):
         cases.append(_mk_case(L, sizes, 'none', rng))
-        cases.append(_mk_case(L, sizes, with_path[k % len(with_path)], rng))
+        cases.append(_mk_case(L, sizes, with_path[k % len(with_path)], rng, nhist=1))
     # 2. boundary-directed random larger layouts
     for _ in range(int(ctx.n(250, 6000) * scale)):
         L = rng.choice([1, 2, 3, 4, 5, 7, 8, 16, 31, 64])
@@ -401,14 +803,14 @@ def gen_cases(ctx, scale=1.0):
         if rng.random() < 0.5:
             sizes = [s for s in sizes if s > 0] or [L + 1]
         cases.append(_mk_case(L, sizes, rng.choice(SETTINGS)['name'], rng, full=False, nested=True,
-                              hashes=rng.choice(['all', 'all', 'all', 'some'])))
+                              hashes=rng.choice(['all', 'all', 'all', 'some']), nhist=ctx.n(3, len(HISTORIES))))
     # 3. real piece lengths (16 KiB multiples)
     for _ in range(int(ctx.n(12, 300) * scale)):
         L = 16384 * rng.choice([1, 2, 4])
         sizes = [rng.choice([0, 1, L - 1, L, L + 1, 2 * L, rng.randint(0, 3 * L)]) for _ in range(rng.randint(1, 6))]
         if sum(sizes) == 0:
             sizes[0] = L + 1
-        c = _mk_case(L, sizes, rng.choice(with_path), rng, full=False)
+        c = _mk_case(L, sizes, rng.choice(with_path), rng, full=False, nhist=2)
         # keep the argument space small: positions around boundaries only
         c['queries'] = [q for q in c['queries'] if q['m'] not in ('file_at_position', 'byte_range')]
         T = sum(sizes)
@@ -421,7 +823,7 @@ def gen_cases(ctx, scale=1.0):
     for _ in range(int(ctx.n(30, 400) * scale)):
         L = rng.choice([1, 2, 3, 8])
         sizes = [max(1, layouts.boundary_sizes(rng, L))]
-        cases.append(_mk_case(L, sizes, rng.choice(SETTINGS)['name'], rng, single=True))
+        cases.append(_mk_case(L, sizes, rng.choice(SETTINGS)['name'], rng, single=True, nhist=2))
     return cases
 
 
@@ -429,8 +831,11 @@ def _witness_case(w):
     import random
     rng = random.Random(0)
     c = _mk_case(w['L'], w['sizes'], w.get('setting', 'cls'), rng)
-    c['queries'] = [w['query']]
+    # sequential iteration is observed for every case anyway
+    c['queries'] = [w['query']] if w['query']['m'] != 'iter' else [{'m': 'get_piece', 'i': 0}]
     c['bad'] = None
+    if w.get('history'):
+        c['hist'] = [w['history']]
     return c
 
 
@@ -447,10 +852,15 @@ def replay_findings(ctx, drv):
 def run_corpus(ctx, drv):
     import glob
     import json
-    cs = []
+    cs, fcs = [], []
     for p in sorted(glob.glob(os.path.join(common.CORPUS_DIR, 'C11', '*.json'))):
-        cs.append(_witness_case(json.load(open(p))))
+        w = json.load(open(p))
+        if w.get('fs'):
+            fcs.append(_fs_witness_case(w))
+        else:
+            cs.append(_witness_case(w))
     evaluate(ctx, drv, cs)
+    evaluate_fs(ctx, drv, fcs)
 
 
 def run(ctx, drv):
@@ -462,6 +872,10 @@ def run(ctx, drv):
         'content is intact (every file present with the recorded size); missing / mis-sized files are C02/C10',
         'get_files_at_byte_range is only called with first <= last (its assert is a precondition)',
         'get_relative_piece_indexes is only called with files of the torrent (it never checks membership)',
+        'path resolution of the operating system = Torf.Reuse.resolve over the inode table read off the disk with '
+        'lstat/readlink/listdir (path_resolution(7): links followed when met, physical `..`, at most 40 links); '
+        'pathlib drops empty and `.` components and keeps `..`; everything in the worlds is readable and searchable',
+        'history of a stream object: the model side is C19 (C19_independent, C19_history); C11 only re-asks',
     ]
     replay_findings(ctx, drv)
     run_corpus(ctx, drv)
@@ -469,6 +883,9 @@ def run(ctx, drv):
     B = 600
     for k in range(0, len(cases), B):
         evaluate(ctx, drv, cases[k:k + B])
+    fcs = gen_fs_cases(ctx)
+    for k in range(0, len(fcs), B):
+        evaluate_fs(ctx, drv, fcs[k:k + B])
     ctx.exhaustive = False
 
 
@@ -476,6 +893,9 @@ def search(ctx, drv):
     cases = gen_cases(ctx, scale=3.0)
     for k in range(0, len(cases), 600):
         evaluate(ctx, drv, cases[k:k + 600])
+    fcs = gen_fs_cases(ctx, scale=3.0)
+    for k in range(0, len(fcs), 600):
+        evaluate_fs(ctx, drv, fcs[k:k + 600])
 
 
 def replay(ctx, drv, rp):
@@ -483,8 +903,11 @@ def replay(ctx, drv, rp):
     import random
     c = _mk_case(c0['L'], c0['sizes'], c0.get('setting', 'cls'), random.Random(0), single=c0.get('single', False))
     c.update({k: c0[k] for k in ('paths', 'cseed', 'nstored', 'bad') if k in c0})
+    if c0.get('fs'):
+        return replay_fs(ctx, drv, c0)
     if c0.get('query', {}).get('m') not in (None, 'iter'):
         c['queries'] = [c0['query']]
+    c['hist'] = [c0['history']] if c0.get('history') else []
     evaluate(ctx, drv, [c])
     return {'fails': bool(ctx.violations) or bool(ctx.known), 'violations': ctx.violations,
             'known': list(ctx.known)}
